@@ -231,8 +231,9 @@ KERNELS = [
 # full -9999..9999 range of the same kernels is the thorough tier.
 import copy as _copy
 YQ0, YQ1 = 2096, 2104
-_HEAVY = {"k_ichecked_add_days": 1, "k_ifrom_doy": 1, "k_ifrom_doy_no_leap": 1, "k_inth_weekday_of_month": 1,
-          "k_date_facts": 1, "k_date_nth_weekday_of_month": 1, "k_date_nth_weekday": 1, "k_iso_new": 1, "k_iso_facts": 1}
+_THOROUGH_ONLY = {"k_ichecked_add_days", "k_date_nth_weekday"}   # do not finish in 200 s even on the year window
+_HEAVY = {"k_ifrom_doy": 1, "k_ifrom_doy_no_leap": 1, "k_inth_weekday_of_month": 1,
+          "k_date_facts": 1, "k_date_nth_weekday_of_month": 1, "k_iso_new": 1, "k_iso_facts": 1}
 
 
 def _narrow(k, n):
@@ -251,6 +252,10 @@ def _narrow(k, n):
 _new = []
 for _k in KERNELS:
     _short = _k.name.split("::")[-1]
+    if _short in _THOROUGH_ONLY:
+        _k.tier = "thorough"
+        _k.split = (0, 64)
+        _k.timeout = 900
     if _short in _HEAVY and _k.tier == "quick":
         _new.append(_narrow(_k, _HEAVY[_short]))
         _k.tier = "thorough"
